@@ -35,7 +35,11 @@ func main() {
 		return
 	}
 	if *debug != "" {
-		w, err := Load(*repo, "", false)
+		minLib := 22
+		if os.Getenv("SFNT_MINLIB") != "" {
+			minLib = 1
+		}
+		w, err := LoadDir(*repo, "", false, minLib)
 		if err != nil {
 			fmt.Println("load:", err)
 			os.Exit(2)
